@@ -140,6 +140,56 @@ theorem C19_repaired_mul_accepted_near_one :
       | .ok _ => true | .error _ => false)) = true := by
   decide +kernel
 
+/-! ### C14: a tie `d0 = d1` between the conditionals, binary32 (before / after repair 4d5bbb1) -/
+
+def fb32 (bits : UInt32) : Float32 := Float32.ofBits bits
+
+/-- x = (0.375, 0.5, 0.125; a = 0.125) -/
+def tieX : BOp Float32 := ⟨fb32 0x3ec00000, fb32 0x3f000000, fb32 0x3e000000, fb32 0x3e000000⟩
+/-- y|x = (0.125, 0, 0.875) -/
+def tieC0 : Float32 × Float32 × Float32 := (fb32 0x3e000000, fb32 0x00000000, fb32 0x3f600000)
+/-- y|¬x = (0.1240234375, 0, 0.8759765625) -/
+def tieC1 : Float32 × Float32 × Float32 := (fb32 0x3dfe0000, fb32 0x00000000, fb32 0x3f604000)
+/-- ay = 0.999755859375 = 1 - 2^-12 -/
+def tieAy : Float32 := fb32 0x3f7ff000
+
+/-- C14 (before repair 4d5bbb1, binary32): the two conditionals have no disbelief (`d0 = d1 = 0`) and `b0 > b1`, a Case II
+    input.  In exact arithmetic `pyx > r` (sub-case II.B, `k = 0`); in binary32 the margin `a (b0-b1)(1-ay)` is below the
+    rounding error of the two sides, `pyx > r` evaluates to false, sub-case II.A.2 is selected and its closed form is
+    0/0 = NaN: the constructor's sum check rejects the result (the Rust `new` panics) on well-formed operands. -/
+theorem C14_pinned_deduce_tie_nan :
+    (match Pinned.deduceNoTie tieX tieC0 tieC1 tieAy with
+      | (r, .IIA2) => isErr r .bdu | _ => false) = true := by
+  decide +kernel
+
+/-- … the correction term itself is NaN there -/
+theorem C14_pinned_deduce_tie_k_nan :
+    Float32.isNaN (Pinned.deduceKNoTie tieX tieC0 tieC1 tieAy).1 = true := by
+  decide +kernel
+
+/-- C14 (repaired model, binary32): the same operands take the tie arm, `k = 0`, and the result `(bI, dI, uI; ay)` is accepted. -/
+theorem C14_repaired_deduce_tie_ok :
+    (match BOp.deduce tieX tieC0 tieC1 tieAy with
+      | (.ok r, .Tie) => decide (r.d == 0.0) && decide (r.a == tieAy) | _ => false) = true
+    ∧ (BOp.deduceK tieX tieC0 tieC1 tieAy).1 = (0.0 : Float32) := by
+  decide +kernel
+
+/-- C14 (before repair 4d5bbb1, EXACT arithmetic, boundary `a = 0` of the antecedent's base rate — outside the open domain
+    of the property): x = (1/2, 1/4, 1/4; 0), y|x = (1/2, 1/4, 1/4), y|¬x = (1/4, 1/4, 1/2), ay = 1/2 reaches II.A.2 with
+    `d0 = d1`: 0/0, rejected although every operand is well-formed. -/
+theorem C14_pinned_boundary_a0_rejected :
+    (match Pinned.deduceNoTie (⟨q 1 2, q 1 4, q 1 4, q 0 1⟩ : BOp (XQ .f64)) (q 1 2, q 1 4, q 1 4)
+        (q 1 4, q 1 4, q 1 2) (q 1 2) with
+      | (.error _, .IIA2) => true | _ => false) = true := by
+  decide +kernel
+
+/-- C14 (repaired model): the same boundary input takes the tie arm and is accepted. -/
+theorem C14_repaired_boundary_a0_accepted :
+    (match BOp.deduce (⟨q 1 2, q 1 4, q 1 4, q 0 1⟩ : BOp (XQ .f64)) (q 1 2, q 1 4, q 1 4)
+        (q 1 4, q 1 4, q 1 2) (q 1 2) with
+      | (.ok _, .Tie) => true | _ => false) = true := by
+  decide +kernel
+
 /-! ### C11: the property's own example, binary64 -/
 
 def s3 (a b c u : Float) : Simplex Float 3 := ⟨#v[a / 16.0, b / 16.0, c / 16.0], u / 16.0⟩
